@@ -88,6 +88,8 @@ FUZZ = {
     "xferconf": {"nodes": [1, 2, 3, 4], "voters": [1, 2, 3], "nonvoters": [], "eager": E3, "steps": 200, "crash": 0.1, "fail": 0.3, "reconfig": 0.6, "snapshot": 0.3, "maxCmds": 10, "transfer": 0.8, "fair": True},
     # short batches (2 entries per request): lagging followers, several requests in flight, abandoned connections
     "batch": {"nodes": [1, 2, 3], "voters": [1, 2, 3], "nonvoters": [], "eager": {"ldr": True, "poll": True, "fsm": False, "maxAppend": 2}, "steps": 220, "crash": 0.1, "fail": 0.8, "reconfig": 0, "snapshot": 0, "maxCmds": 14},
+    # partitions: one node at a time is cut off (dials / RPCs fail, nothing delivered), the rest goes on, snapshots and compaction meanwhile
+    "part": {"nodes": [1, 2, 3], "voters": [1, 2, 3], "nonvoters": [], "eager": E3, "steps": 260, "crash": 0.05, "fail": 0.2, "reconfig": 0, "snapshot": 1.2, "maxCmds": 18, "partition": 1.0},
     "all": {"nodes": [1, 2, 3, 4], "voters": [1, 2, 3], "nonvoters": [], "eager": E3, "steps": 220, "crash": 0.2, "fail": 0.3, "reconfig": 0.5, "snapshot": 0.8, "maxCmds": 12},
 }
 
@@ -108,15 +110,15 @@ PLANS = {
                 ["G_OneVote", "G_PersistVote", "G_StaleTermVote", "FixD1", "G_StepDownOnTerm"]),
     "C02": plan(["C02_CommittedAgree", "C02_LeaderCompleteness", "C02_CommittedStable"], [REPL_Q3, REPL_Q2], [REPL_T3, REPL_T2],
                 ["G_UpToDate", "G_LeaderOwnTerm", "G_FollowerOwnTerm", "G_TruncateOnConflict", "G_ConsistencyCheck", "G_MajorityOfVoters"], sim=("core", "conf")),
-    "C03": plan(["C03_FsmIsCommittedPrefix", "C03_FsmNotAhead"], [REPL_Q3, REPL_Q2], [REPL_T3, REPL_T2], ["G_UpToDate", "G_FollowerOwnTerm", "G_ConsistencyCheck"]),
-    "C04": plan(["C04_LogMatching", "C04_LeaderAppendOnly"], [REPL_Q3, REPL_Q2], [REPL_T3, REPL_T2], ["G_ConsistencyCheck", "G_TruncateOnConflict", "G_StaleTermAppend"]),
+    "C03": plan(["C03_FsmIsCommittedPrefix", "C03_FsmNotAhead"], [REPL_Q3, REPL_Q2], [REPL_T3, REPL_T2], ["G_UpToDate", "G_FollowerOwnTerm", "G_ConsistencyCheck"], fuzz=("core", "part")),
+    "C04": plan(["C04_LogMatching", "C04_LeaderAppendOnly"], [REPL_Q3, REPL_Q2], [REPL_T3, REPL_T2], ["G_ConsistencyCheck", "G_TruncateOnConflict", "G_StaleTermAppend"], fuzz=("core", "batch", "part")),
     "C06": plan(["C06_MajorityDurable"], [REPL_Q2, CONF_Q12, CONF_Q21], [REPL_T2, CONF_T], ["G_FlushBeforeAck", "G_LeaderFlush", "G_MajorityOfVoters", "FixD2"], sim=("core", "conf")),
     "C08": plan(["C08_OneVoterDelta", "C08_ConfigOnlyWhenSafe", "C19_LatestIsNewest", "C01_ElectionSafety", "C02_CommittedAgree", "C02_CommittedStable"], [CONF_Q12, CONF_Q21], [CONF_T], ["G_ConfigCommittedFirst", "G_OwnTermBeforeConfig"], sim=("conf",)),
     "C11": plan(["C11_OnlyVotersCampaign", "C11_OnlyVotersLead", "C11_PromoteAfterRound", "C11_StopOnlyWhenRemoved", "C11_DemotedLeaderStepsDown", "C06_MajorityDurable"],
                 [CONF_Q12, CONF_Q21], [CONF_T], ["G_NonVoterNoElection", "G_PromoteAfterRound", "G_StepDownWhenDemoted", "G_MajorityOfVoters"], sim=("conf",)),
-    "C09": plan(["C09_SnapshotCommitted", "C09_NoViewInvalidation", "C03_FsmIsCommittedPrefix", "C03_FsmNotAhead"], [SNAP_Q], [SNAP_T], ["FixD5"], sim=("snap",)),
+    "C09": plan(["C09_SnapshotCommitted", "C09_NoViewInvalidation", "C03_FsmIsCommittedPrefix", "C03_FsmNotAhead"], [SNAP_Q], [SNAP_T], ["FixD5", "FixD11", "FixD19"], sim=("snap",), fuzz=("snap", "part")),
     "C12": plan(["C12_LabelOK"], [SNAP_Q], [SNAP_T], ["FixD4"], sim=("snap", "conf")),
-    "C19": plan(["C19_Ordered", "C19_LatestIsNewest", "C19_Monotone"], [REPL_Q3, REPL_Q2], [REPL_T3, REPL_T2], ["G_ConsistencyCheck", "G_FollowerOwnTerm"], sim=("core", "conf"), fuzz=("core", "conf", "batch")),
+    "C19": plan(["C19_Ordered", "C19_LatestIsNewest", "C19_Monotone"], [REPL_Q3, REPL_Q2], [REPL_T3, REPL_T2], ["G_ConsistencyCheck", "G_FollowerOwnTerm", "FixD19"], sim=("core", "conf"), fuzz=("core", "conf", "batch", "part")),
     # C10: crash at every hook point inside the handlers (image of the directory at that instant), restart on the image, rejoin
     "C10": plan(["C10_RestartOK", "C01_ElectionSafety", "C02_CommittedAgree", "C02_LeaderCompleteness", "C02_CommittedStable",
                  "C03_FsmIsCommittedPrefix", "C03_FsmNotAhead", "C04_LogMatching", "C05_TermMonotone", "C05_OneVotePerTerm"],
